@@ -1,7 +1,7 @@
 from reghelp import *
 
 CHECK = dict(
-    runs=runs3('h_rwlock', (16, 8, 16), (96, 48, 160)),
+    runs=runs3('h_rwlock', (16, 8, 16), (64, 32, 96)),
     par=6,
     level='exploration',
     rule='one evaluation = one seeded execution: readers and writers on 1-4 vCPUs using lock / timed lock / try_lock (qrwlock) on rwlock and qrwlock objects, holding with yields and sleeps, '
